@@ -314,6 +314,13 @@ func runCell(c *vk.Ctx, ce cell, i int) {
 	defer r.Close()
 	p := rig.NewPeer()
 	p.Seq = rr.Intn(500) // sequence numbers of various widths
+	if i%5 == 2 && ce.role == rig.Acceptor && ce.logged {
+		// the peer's SenderCompID holds the text "34=" (it stands in front of MsgSeqNum in every message the peer sends;
+		// the accepting session mirrors it): the Reject must still name the message by its real MsgSeqNum field
+		p.Sender = rig.PeerID + "34=9"
+		desc += " [peer SenderCompID contains the text 34=]"
+		c.Count("scenarios_whose_peer_compid_contains_34=", 1)
+	}
 	if ce.logged {
 		res := r.Inbound(p.Logon(hb, "0"))
 		if !res.Logged {
@@ -442,8 +449,8 @@ func runCell(c *vk.Ctx, ce cell, i int) {
 	} else {
 		f := res.Outs[0].Fields
 		c.Count("rejects_checked", 1)
-		if ce.logged && (fixref.GetS(f, rig.TSender) != rig.LibID || fixref.GetS(f, rig.TTarget) != rig.PeerID) {
-			c.Violate(key("reject-sent-under-another-identity"), fmt.Sprintf("%s: the Reject carries 49=%s 56=%s; the session logged on as 49=%s 56=%s", desc, fixref.GetS(f, rig.TSender), fixref.GetS(f, rig.TTarget), rig.LibID, rig.PeerID), replay)
+		if ce.logged && (fixref.GetS(f, rig.TSender) != rig.LibID || fixref.GetS(f, rig.TTarget) != p.Sender) {
+			c.Violate(key("reject-sent-under-another-identity"), fmt.Sprintf("%s: the Reject carries 49=%s 56=%s; the session logged on as 49=%s 56=%s", desc, fixref.GetS(f, rig.TSender), fixref.GetS(f, rig.TTarget), rig.LibID, p.Sender), replay)
 		}
 		if seqUsable {
 			if fixref.GetS(f, rig.TRefSeq) != seq {
@@ -463,8 +470,8 @@ func runCell(c *vk.Ctx, ce cell, i int) {
 		fu.Outs = answers(fu.Outs)
 		if len(fu.Outs) != 1 || fu.Outs[0].Type != "0" || fixref.GetS(fu.Outs[0].Fields, rig.TTestReqID) != "after" {
 			c.Violate(key("following-valid-message-not-served"), desc+": a TestRequest after the invalid message was answered with "+types(fu.Outs), replay)
-		} else if ff := fu.Outs[0].Fields; fixref.GetS(ff, rig.TSender) != rig.LibID || fixref.GetS(ff, rig.TTarget) != rig.PeerID {
-			c.Violate(key("session-identity-changed-by-the-invalid-message"), fmt.Sprintf("%s: after the invalid message the session sends as 49=%s 56=%s; it logged on as 49=%s 56=%s", desc, fixref.GetS(ff, rig.TSender), fixref.GetS(ff, rig.TTarget), rig.LibID, rig.PeerID), replay)
+		} else if ff := fu.Outs[0].Fields; fixref.GetS(ff, rig.TSender) != rig.LibID || fixref.GetS(ff, rig.TTarget) != p.Sender {
+			c.Violate(key("session-identity-changed-by-the-invalid-message"), fmt.Sprintf("%s: after the invalid message the session sends as 49=%s 56=%s; it logged on as 49=%s 56=%s", desc, fixref.GetS(ff, rig.TSender), fixref.GetS(ff, rig.TTarget), rig.LibID, p.Sender), replay)
 		}
 	} else if ce.role == rig.Acceptor {
 		fu := r.Inbound(p.Logon(30, "0"))
